@@ -30,7 +30,13 @@ var c07Contexts = []c07ctx{
 }
 
 // malformed statements built from tokens that cannot continue any statement before them
-var c07Menu = []string{"1 + ;", "$a = ;", "foo ( ;", ")", "if ( ;", "class { }", "$a -> ;", "function ( ;", "]", "=> 1 ;", "1 1 ;", "$a [ ;", "new ;", "echo , ;", "$a = = 1 ;", "} }"}
+// malformed statements that neither open nor close a bracket or scope: after them the parser must find its
+// way back to the statement level, so that the last of two or more well-formed statements that follow is
+// in the tree ("parsing continues after it")
+var c07Closed = map[string]bool{"1 + ;": true, "$a = ;": true, "=> 1 ;": true, "1 1 ;": true, "new ;": true, "echo , ;": true, "$a = = 1 ;": true, "$a -> ;": true,
+	"__halt_compiler ( ;": true, "__halt_compiler ;": true, "__halt_compiler ( ) x ;": true, "<<<A\nx\nA\n 1 ;": true, "\"a $b \" 1 ;": true}
+
+var c07Menu = []string{"__halt_compiler ( ;", "__halt_compiler ;", "__halt_compiler ( ) x ;", "<<<A\nx\nA\n 1 ;", "\"a $b \" 1 ;", "1 + ;", "$a = ;", "foo ( ;", ")", "if ( ;", "class { }", "$a -> ;", "function ( ;", "]", "=> 1 ;", "1 1 ;", "$a [ ;", "new ;", "echo , ;", "$a = = 1 ;", "} }"}
 
 // levelStmts: the statement list in which S1…Sk and M stand (innermost "Stmts" along the first statements).
 func levelStmts(root ast.Vertex, depth int) ([]ast.Vertex, bool) {
@@ -100,6 +106,8 @@ type c07Case struct {
 	srcCase
 	Ctx    int      `json:"ctx"`
 	Before []string `json:"before"`
+	After  []string `json:"after"`
+	M      string   `json:"malformed"`
 }
 
 // stmtForms: the statement-level sentences of the corpus (text after the open tag).
@@ -150,6 +158,21 @@ func c07One(c *core.Ctx, cs c07Case) {
 	c.Stat("recovered", 1)
 	c.NontrivialH(core.Hash(cs.Ver + string(cs.Src)))
 	c07Print(c, cs.srcCase, res)
+	if c07Closed[cs.M] && len(cs.After) >= 2 {
+		// parsing continues: the last well-formed statement after the malformed one is in the list
+		last := cs.After[len(cs.After)-1]
+		alone := drive.Parse([]byte("<?php "+ctx.open+last+ctx.close), v, true)
+		if alone.Clean() {
+			wantL, ok1 := c07Level(alone.Root, ctx)
+			gotL, ok2 := c07Level(res.Root, ctx)
+			if ok1 && len(wantL) == 1 {
+				c.Stat("continuations_compared", 1)
+				if !ok2 || len(gotL) == 0 || astx.StructFP(gotL[len(gotL)-1]) != astx.StructFP(wantL[0]) {
+					c.Report("parsing does not continue after a malformed statement: the last well-formed statement is not in the tree ("+ctx.name+")", mkWhat("malformed %q, last statement %q in %q", cs.M, last, cs.Src), cs)
+				}
+			}
+		}
+	}
 	if len(cs.Before) == 0 {
 		return
 	}
@@ -294,7 +317,7 @@ func c07Run(c *core.Ctx) {
 						}
 						parts := append(append(append([]string{}, l[:pos]...), m), l[pos:]...)
 						src := "<?php " + ctx.open + strings.Join(parts, " ") + ctx.close
-						cs := c07Case{srcCase: mkCase(src, f.V, "statement list with a malformed statement in "+ctx.name), Ctx: ci, Before: l[:pos]}
+						cs := c07Case{srcCase: mkCase(src, f.V, "statement list with a malformed statement in "+ctx.name), Ctx: ci, Before: l[:pos], After: l[pos:], M: m}
 						c07One(c, cs)
 						c.Sample(cs)
 					}
@@ -365,8 +388,8 @@ func c07Run(c *core.Ctx) {
 func init() {
 	register(&core.Check{
 		Prop: "C07", Level: "exploration", Exhaust: true, QuickSecs: 400, ThorSecs: 3000,
-		Rule: "statement lists S1 [S2 [S3]] over every statement form of the rule-level corpus of each grammar, in six contexts (top level, function body, block, namespace body, method body, if body), with each of 16 malformed statements (built from tokens that cannot continue a preceding statement) inserted at every boundary; plus every corpus program and grammar-action error program that yields a tree together with errors, every LR error cell (3 tails) and every E-bytes input (<= 2/3 symbols, 15 contexts) on which a tree comes back together with errors. " +
-			"Oracle when errors were reported and a tree returned: (1) the statement list of that level starts with the trees of the statements before the error, identical in kinds, values, tokens and positions to parsing `<?php ctx S1…Si` alone; (2) the root has its end token (parsing continued to the end); (3) every token of the tree holds the source bytes at its offsets, offsets increase in print order without overlap, and the printed bytes are exactly those tokens in that order plus printer glue (blank, open/close tag). non-trivial = recovered parse; distinct by (version, source)",
+		Rule: "statement lists S1 [S2 [S3]] over every statement form of the rule-level corpus of each grammar, in six contexts (top level, function body, block, namespace body, method body, if body), with each of 21 malformed statements (built from tokens that cannot continue a preceding statement) inserted at every boundary; plus every corpus program and grammar-action error program that yields a tree together with errors, every LR error cell (3 tails) and every E-bytes input (<= 2/3 symbols, 15 contexts) on which a tree comes back together with errors. " +
+			"Oracle when errors were reported and a tree returned: (1) the statement list of that level starts with the trees of the statements before the error, identical in kinds, values, tokens and positions to parsing `<?php ctx S1…Si` alone; (2) the root has its end token, and after a malformed statement that neither opens nor closes a bracket the last of >= 2 following statements is in the list (parsing continues); (3) every token of the tree holds the source bytes at its offsets, offsets increase in print order without overlap, and the printed bytes are exactly those tokens in that order plus printer glue (blank, open/close tag). non-trivial = recovered parse; distinct by (version, source)",
 		Assume: []string{"which statements after the malformed one survive is not demanded"},
 		Run:    c07Run,
 		Replay: func(c *core.Ctx, raw json.RawMessage) {
